@@ -7,6 +7,8 @@
 (*     stream credit); the application tries to send a request / response / trailers whose size sweeps L-2 .. L+2.   *)
 EXTENDS H3Message, H3Frame, Json
 
+CONSTANT Tier
+
 Pad(n) == [i \in 1..n |-> 97]
 X == <<120>>
 Y == <<121>>
@@ -71,19 +73,34 @@ ScnSendReqTrailers(L, t, when) ==
                \o <<[op |-> "request", task |-> "r1", prog |-> <<[op |-> "send_request", method |-> GET, uri |-> Uri, fields |-> <<>>],
                                                                  [op |-> "send_trailers", fields |-> Extra1(t, 0)], [op |-> "hold"]>>]>>]
 
+\* limits at the top of the range: the endpoint configured with 2^62-1, the peer advertising 2^62-1 / 2^30 (8-byte varints)
+HugeSettings(role, v) == [op |-> "deliver", sid |-> (IF role = "server" THEN 2 ELSE 3), bytes |-> <<0>> \o Frame(4, <<6>> \o EncodeN(v, 8))]
+ScnRecvReqHuge(s) ==
+    [part |-> "R", kind |-> "request", role |-> "server", cfg |-> [grease |-> FALSE, max_field_huge |-> TRUE], size |-> s, peer_limit_small |-> FALSE,
+     default_handler |-> <<[op |-> "resolve"], [op |-> "recv_body"], [op |-> "recv_trailers"]>>,
+     steps |-> <<[op |-> "deliver", sid |-> 0, bytes |-> Frame(1, Sec(ReqBase \o Extra1(s, 167)))], [op |-> "fin", sid |-> 0]>>]
+ScnSendReqHuge(v, s) ==
+    [part |-> "S", kind |-> "request", role |-> "client", size |-> s, limit |-> 1000000000, when |-> "before", cfg |-> [grease |-> FALSE, bidi_credit |-> 100],
+     steps |-> <<HugeSettings("client", v), [op |-> "request", task |-> "r1", prog |-> ReqProg(Extra1(s, 167))]>>]
+More == Tier # "quick"
+LimitsR == IF More THEN {207, 208, 256, 300, 500} ELSE {207, 300}
+SweepT(L) == IF More THEN { s \in (L - 3)..(L + 3) : s >= 0 } ELSE Sweep(L)
+
 VARIABLE out
 Init == out = <<>>
 Next == /\ out = <<>>
-        /\ \/ \E L \in {207, 300} : \E s \in Sweep(L), small \in BOOLEAN : out' = ScnRecvReq(L, s, small)
+        /\ \/ \E L \in LimitsR : \E s \in SweepT(L), small \in BOOLEAN : out' = ScnRecvReq(L, s, small)
+           \/ \E s \in {200, 1000} : out' = ScnRecvReqHuge(s)
+           \/ \E v \in {Max62, <<0,0,0,0,64,0,0,0>>, <<0,0,0,1,0,0,0,0>>}, s \in {200, 1000} : out' = ScnSendReqHuge(v, s)
            \/ \E L \in {0, 1, 100, 166, 167, 168} : out' = ScnRecvReq(L, 200, FALSE)
-           \/ \E L \in {207, 300} : \E t \in Sweep(L), three \in BOOLEAN : out' = ScnRecvTrailers("server", L, t, three)
+           \/ \E L \in LimitsR : \E t \in SweepT(L), three \in BOOLEAN : out' = ScnRecvTrailers("server", L, t, three)
            \/ \E L \in {100, 207} : \E t \in Sweep(L), three \in BOOLEAN : t >= 99 /\ out' = ScnRecvTrailers("client", L, t, three)
            \/ \E L \in {42, 43, 74} : \E t \in Sweep(L) : t >= 33 /\ out' = ScnRecvTrailers("client", L, t, FALSE)
-           \/ \E L \in {100, 207, 300} : \E s \in Sweep(L) : s >= 75 /\ out' = ScnRecvResp(L, s)
+           \/ \E L \in ({100} \cup LimitsR) : \E s \in SweepT(L) : s >= 75 /\ out' = ScnRecvResp(L, s)
            \/ \E L \in {0, 41, 42, 43} : out' = ScnRecvResp(L, 75)
-           \/ \E L \in {207, 300} : \E s \in Sweep(L), when \in {"before", "never", "during"} : out' = ScnSendReq(L, s, when)
+           \/ \E L \in LimitsR : \E s \in SweepT(L), when \in {"before", "never", "during"} : out' = ScnSendReq(L, s, when)
            \/ \E L \in {0, 1, 166, 167, 168} : \E when \in {"before", "during"} : out' = ScnSendReq(L, 200, when)
-           \/ \E L \in {100, 207} : \E s \in Sweep(L), when \in {"before", "never"} : s >= 75 /\ out' = ScnSendResp(L, s, 40, when)
+           \/ \E L \in ({100} \cup LimitsR) : \E s \in SweepT(L), when \in {"before", "never"} : s >= 75 /\ out' = ScnSendResp(L, s, 40, when)
            \/ \E L \in {41, 100} : \E t \in Sweep(L), when \in {"before", "never"} : t >= 33 /\ out' = ScnSendResp(L, 75, t, when)
            \/ \E L \in {200} : \E t \in Sweep(L), when \in {"before", "never"} : t >= 33 /\ out' = ScnSendReqTrailers(L, t, when)
 Spec == Init /\ [][Next]_out
